@@ -22,6 +22,18 @@ TraceInit == l = 1 /\ TLCSet(1, 0) /\ TLCSet(2, 0)
 TraceNext == l <= Len(TraceLog) /\ l' = l + 1
 TraceSpec == TraceInit /\ [][TraceNext]_l
 
+\* naming (not part of the verdict): variables of the original operation all of whose uses are nested in list / object
+\* literals of field arguments (extraction replaces the whole literal, the definition is left behind)
+RECURSIVE TopVars(_)
+TopVars(sel) ==
+  UNION {{sel[i].args[j].value.n : j \in {k \in DOMAIN sel[i].args : sel[i].args[k].value.t = "v"}} \cup DirsVars(sel[i].dirs) \cup TopVars(sel[i].sel)
+         : i \in DOMAIN sel}
+NestedOnlyVars(doc) ==
+  LET top == UNION {TopVars(doc.ops[i].sel) \cup DirsVars(doc.ops[i].dirs) : i \in DOMAIN doc.ops}
+             \cup UNION {TopVars(doc.frags[i].sel) \cup DirsVars(doc.frags[i].dirs) : i \in DOMAIN doc.frags}
+  IN UNION {OpVarUses(doc, doc.ops[i]) : i \in DOMAIN doc.ops} \ top
+UnusedIn(doc) == UNION {Range(Names(doc.ops[i].vars)) \ OpVarUses(doc, doc.ops[i]) : i \in DOMAIN doc.ops}
+
 Judge ==
   IF l > Len(TraceLog) THEN TRUE
   ELSE LET o == TraceLog[l]
@@ -29,11 +41,16 @@ Judge ==
            nd == Reachable(o.ndoc)
            failed == FailedRules(S, nd)
            valid == Executable(S, nd) /\ failed = {}
-           \* the meaning is only compared when the normalized operation can be executed by the reference semantics
-           diff == IF valid THEN Differing(S, o) ELSE {}
+           \* the meaning is compared whenever the normalized operation can be executed by the reference semantics
+           \* (an unused variable definition does not prevent that)
+           diff == IF Executable(S, nd) /\ failed \subseteq {"VariablesUsed"} THEN Differing(S, o) ELSE {}
+           tokens == {IF t = "VariablesUsed" /\ UnusedIn(nd) \subseteq NestedOnlyVars(Reachable(o.doc)) THEN "VariablesUsed/nested-only-variable" ELSE t
+                      : t \in TokensOf(S, nd, failed)}
+           \* does the known defect (ExecAlt) explain the difference?
+           alt == diff # {} /\ \A u \in DOMAIN Probe(S) : Exec(S, Probe(S)[u], o.ndoc, o.nvars) = ExecAlt(S, Probe(S)[u], o.doc, o.vars)
        IN /\ TLCSet(1, IF l > TLCGet(1) THEN l ELSE TLCGet(1))
           /\ IF valid /\ diff = {} THEN TRUE
-             ELSE /\ PrintT(ToJson([nonconforming |-> o.id, valid |-> valid, tokens |-> TokensOf(S, nd, failed), universes |-> diff]))
+             ELSE /\ PrintT(ToJson([nonconforming |-> o.id, valid |-> valid, tokens |-> tokens, universes |-> diff, alt |-> alt]))
                   /\ TLCSet(2, TLCGet(2) + 1)
 
 \* the same relations as plain invariants (replay mode / binding demonstration)
